@@ -14,7 +14,7 @@ from concurrent.futures import ThreadPoolExecutor
 
 pid, repo = sys.argv[1], sys.argv[2]
 verif = os.path.dirname(os.path.dirname(os.path.abspath(__file__)))
-binp = os.path.join(verif, "bin", "alliancecheck")
+binp = os.environ.get("ALLIANCECHECK_BIN") or os.path.join(verif, "bin", "alliancecheck")
 env = dict(os.environ, GOFLAGS="-mod=mod", GOPROXY="off", GOSUMDB="off", GOTOOLCHAIN="local")
 env.pop("GOWORK", None)
 t0 = time.time()
